@@ -1,4 +1,22 @@
-"""C06 - filters impose their constraints exactly and idempotently on vectors/matrices."""
+"""C06 - filters impose their constraints exactly and idempotently on vectors/matrices.
+
+Streams: "filters" (every case: implementation = Lean model, independent oracle) and "known-findings" (the cases of
+the main stream that fall into the input class of an open finding, judged again with the abort class kept).
+
+Open finding (KNOWN_FINDINGS.json, signature "c06-edge:F1"): MeanFilterBlocked's constructors test
+`volume.norm_euclid_sqr() > eps` instead of every component, so weights with one vanishing volume component are
+accepted and filter_rhs/sol/def/cor then divide by that component.
+
+Not runtime violations, documented here only:
+* F2 (compile time): UnitFilter::filter_offdiag_row_mat(SparseMatrixBCSR<DT, IT, 1, 1>&) is an ambiguous overload
+  (unit_filter.hpp: the <1, block_width_> and the <block_height_, 1> templates match equally well), so the harness
+  offers the block shapes (1,2), (1,3), (2,1), (3,1) only.
+* F3: UnitFilter(Blocked)::filter_weak_matrix_rows initialises col_idx from matrix_m.col_ind() and then asserts
+  `col_idx == matrix_m.col_ind()`; the intended comparison with matrix_a.col_ind() is not made.
+* Entry-free CSR/BCSR matrices: the array constructor asserts non-empty arrays and Mat(rows, cols) owns no row_ptr
+  (a filter with entries would dereference the null row_ptr there, cf. the C05 finding about CSR(r,c) without
+  arrays); the harness builds them with Mat(rows, cols, used_elements = 0) and fills row_ptr.
+"""
 import json
 import os
 import random
@@ -261,8 +279,9 @@ def squeeze(s):
 
 def gen_csr(rng, rows, cols, bs=1, bw=1):
     rp, ci = [0], []
+    all_empty = rng.random() < 0.04
     for i in range(rows):
-        style = rng.choice(["diag", "diag", "diag", "nodiag", "empty", "full"])
+        style = "empty" if all_empty else rng.choice(["diag", "diag", "diag", "nodiag", "empty", "full"])
         cand = list(range(cols))
         if style == "empty":
             row = []
@@ -277,7 +296,8 @@ def gen_csr(rng, rows, cols, bs=1, bw=1):
             rng.shuffle(row)
         ci += row
         rp.append(len(ci))
-    if not ci:
+    if not ci and rng.random() < 0.5:
+        # half of the entry-free matrices are kept entry-free (harness: Mat(rows, cols, 0) + zero row_ptr)
         ci = [rng.randrange(cols)]
         rp = [0] + [1] * rows
     val = [rq(rng) for _ in range(len(ci) * bs * bw)]
@@ -952,6 +972,42 @@ def oracle(case, out):
         return "unparsable implementation output (%s): %s" % (e, out[:200])
 
 
+F1_WHY = "MeanFilterBlocked accepted a volume with a vanishing component and divided by it"
+
+
+def is_f1_class(case):
+    """input class of finding F1: a blocked mean filter with weights whose volume has a zero component but a
+    squared norm > eps (and nothing else in the case that divides by zero)"""
+    if not case.startswith("vec "):
+        return False
+    try:
+        mode, sig, f, v = parse_vec_case(case)
+    except Exception:
+        return False
+    hit = False
+    for m in filter_leaves(f):
+        if m[0] == "S" and any(all(x == 0 for x in nu) for _, nu in m[3]):
+            return False
+        if m[0] == "MB" and m[2] in (0, 1) and m[3] > 0 and NAN not in m[4] + m[5] + m[6] + m[7]:
+            if any(x == 0 for x in m[7]) and dot(m[7], m[7]) > EPS:
+                hit = True
+    return hit
+
+
+def oracle_f1(case, out):
+    """the constructor has to reject such weights ('domain volume must not be zero'); dividing by the vanishing
+    component (exact scalar: abort 'division by zero', floating point: inf/NaN entries) is the defect"""
+    if out == "ABORT:div0":
+        return F1_WHY
+    return None
+
+
+def canon_keep_div0(out):
+    if out.startswith("ABORT:Q:_division_by_zero"):
+        return "ABORT:div0"
+    return canon(out)
+
+
 def canon(out):
     if out.startswith("ABORT"):
         return "ABORT"
@@ -1013,6 +1069,8 @@ def describe(case):
             for m in filter_leaves(f):
                 keys += leaf_class(m)
             keys.append("matrix:" + ("square" if rows == cols else "rectangular"))
+            if not ci:
+                keys.append("matrix:no-stored-entry")
             cons = unit_rows(f)
             if any(i < rows and i not in ci[rp[i]:rp[i + 1]] for i in cons):
                 keys.append("constrained-row-without-stored-diagonal")
@@ -1063,6 +1121,8 @@ def nontrivial(case):
 
 
 def signature(case, out, why):
+    if why == F1_WHY:
+        return "c06-edge:F1"
     t = case.split()
     return "%s-%s:%s" % (t[0], t[1], (why or "")[:40])
 
@@ -1088,6 +1148,9 @@ def main(argv):
         cases = corpus + (gen_cases(rng, 20000) if args.tier == "quick" else gen_cases(rng, 150000, big=True))
     st = vlib.Stream("filters", cases, [binary], vlib.driver_cmd(PROP), oracle=oracle, nontrivial=nontrivial,
                      describe=describe, signature=signature, canon=canon)
+    st_kf = vlib.Stream("known-findings", [c for c in cases if is_f1_class(c)], [binary], None, oracle=oracle_f1,
+                        nontrivial=lambda c: True, describe=lambda c: ["class:F1-volume-component-zero"],
+                        signature=signature, canon=canon_keep_div0)
     stats_rule = ("random unit / unit-blocked / slip / mean / mean-blocked / none filters and %d chain, sequence, tuple and "
                   "power compositions of them (depth <= 4, overlapping index sets included) on vectors of 0..8 (thorough: "
                   "..40) dofs, index sets empty / all / random / first+last / single / with duplicates, both constructors, "
@@ -1095,7 +1158,7 @@ def main(argv):
                   "rectangular CSR and BCSR matrices incl. rows without stored diagonal and empty rows; every case is "
                   "applied twice; non-trivial = inside the domain and some member constrains 0 < |idx| < n entries "
                   "(mean filter: >= 2 dofs)" % len(VEC_SIGS))
-    rc = vlib.run_pipeline(PROP, args.tier, args.seed, lean, [st], t0, assumptions=[
+    rc = vlib.run_pipeline(PROP, args.tier, args.seed, lean, [st, st_kf], t0, assumptions=[
         "Index modelled as unbounded Nat; indices of filter entries are < size (ASSERT only in debug builds)",
         "NaN is modelled by one marker value of the exact scalar (only as a filter value); Math::isnan<Q> is supplied by the harness",
         "aborts of the exact scalar on division by zero stand for the NaN/Inf results of floating point (zero normal, "
